@@ -6,6 +6,7 @@ raw_value defaulting and copy/deepcopy/pickle round trips are checked on values 
 Values come from a directed boundary set, seeded random, and from real parses of mission packets.
 """
 import copy
+import itertools
 import math
 import os
 import pickle
@@ -16,7 +17,7 @@ from vmon import bits
 LEVEL = "exploration"
 SHARDS = {"quick": 8, "thorough": 16}
 MUST = ["battery.int", "battery.float", "battery.str", "battery.bytes", "battery.bool", "copy.values", "copy.packets",
-        "rawdefault.checks", "rewrap.checks", "rewrap.compared", "harvested.values", "harvested.class_vs_model"]
+        "rawdefault.checks", "pair.ops", "rewrap.checks", "rewrap.compared", "harvested.values", "harvested.class_vs_model"]
 RULE = ("for every (class, value, raw_value) case the harness builds v = Class(value[, raw_value]) and the plain "
         "built-in twin, runs ~60 operations on both (comparison, hash, bool, repr/str/format, arithmetic, "
         "conversion, slicing, containment, codec, dict-key and sort use) and compares outcome and outcome type "
@@ -355,8 +356,47 @@ def run(ctx):
             if i < 40:
                 ctx.sample({"class": cls.__name__, "value": v, "raw_value_given": r if has else "(none)"})
 
+    pair_battery(ctx, rng)
     harvest(ctx)
     harvest_generated(ctx)
+
+
+def pair_battery(ctx, rng):
+    """operations BETWEEN two value objects (both carrying raw values that order / compare differently from the values):
+    the outcome must be what the two plain built-ins give"""
+    import operator
+    from space_packet_parser import common
+    pools = {
+        "StrParameter": (str, [("HIGH", 2), ("LOW", 0), ("MEDIUM", 1), ("", 3), ("LOW", 7), ("a", b"z"), ("b", b"a"), ("OFF", None)]),
+        "IntParameter": (int, [(5, 9), (7, 1), (0, 100), (-3, 2.5), (7, 7), (2 ** 70, 0), (1, None)]),
+        "FloatParameter": (float, [(1.5, 1000), (2.5, 10), (0.0, 5), (-0.0, 1), (float("inf"), 0), (1.5, 3), (2.0, None)]),
+        "BinaryParameter": (bytes, [(b"ab", 5), (b"b", 1), (b"", 9), (b"ab", b"zz"), (b"\x00", 0), (b"abc", None)]),
+        "BoolParameter": (bool, [(True, 0), (False, 1), (True, 5), (False, 0), (True, None)]),
+    }
+    ops = {"lt": operator.lt, "le": operator.le, "gt": operator.gt, "ge": operator.ge, "eq": operator.eq, "ne": operator.ne,
+           "add": operator.add, "sorted": lambda a, b: sorted([a, b]), "min": lambda a, b: min(a, b), "max": lambda a, b: max(a, b),
+           "sorted3": lambda a, b: sorted([b, a, b]), "contains": lambda a, b: operator.contains(a, b), "mul": operator.mul,
+           "sub": operator.sub, "dict": lambda a, b: {a: 1, b: 2}, "set": lambda a, b: len({a, b}), "index": lambda a, b: [a, b].index(b)}
+    n = 0
+    for cname, (base, pool) in pools.items():
+        cls = getattr(common, cname)
+        objs = [(cls(v) if r is None else cls(v, r), base(v)) for v, r in pool]
+        for (a, ta), (b_, tb) in itertools.product(objs, repeat=2):
+            n += 1
+            if not ctx.mine(n):
+                continue
+            for oname, fn in ops.items():
+                for left, right, tag in ((a, b_, "both"), (ta, b_, "right-only"), (a, tb, "left-only")):
+                    got, want = outcome(lambda: fn(left, right)), outcome(lambda: fn(ta, tb))
+                    ctx.count("pair.ops")
+                    bad = compare_outcomes(got, want)
+                    if bad and cname == "BoolParameter":
+                        bad = compare_outcomes(got, outcome(lambda: fn(int(ta), int(tb))))
+                    if bad:
+                        ctx.violation(f"pair/{cname}/{oname}/{tag}/{bad}", f"{oname}({left!r} [raw {getattr(left, 'raw_value', '-')!r}], {right!r} [raw {getattr(right, 'raw_value', '-')!r}]) "
+                                      f"-> {got}, built-ins -> {want}", {"class": cname, "op": oname, "operands": tag, "got": got, "builtin": want})
+            ctx.sig("pair", cname, category(plain(ta)), category(plain(tb)))
+    ctx.count("evaluations", n // max(1, ctx.nshards))
 
 
 def harvest_generated(ctx):
